@@ -197,10 +197,6 @@ Fixpoint wb (h : nat -> nat) (p : list act) : Prop :=
   | Recv b :: r => wb (upd h b (S (h b))) r
   end.
 
-(* the same as a boolean, for the examples (buffers 0..nb-1 matter) *)
-Definition hget (h : list (nat * nat)) (b : nat) : nat :=
-  match find (fun kv => Nat.eqb (fst kv) b) h with Some kv => snd kv | None => 0 end.
-
 (** what the emitted events say about a run: used by the examples *)
 Definition run_trace (progs : list (list act)) (sched : list nat) : option (list (event * nat)) :=
   match run rstep (init progs) sched with
